@@ -146,6 +146,7 @@ func (n *tyNode) structFields() []fieldNode {
 // ---------------------------------------------------------------- leaves (what the generator aims at)
 
 type leaf struct {
+	Path   string   // Go selector path (field names), identifies the field across tags
 	Keys   []string // full keys: primary, aliases
 	Ty     *tyNode
 	Kind   string // prim ptr slice map ptrslice ptrmap
@@ -191,7 +192,7 @@ func splitTag(tv, name string, isForm bool) (string, []string, bool) {
 	return primary, al, true
 }
 
-func walkShape(sh *shape, fs []fieldNode, tag int, pre string, nested bool, depth, embed int) {
+func walkShape(sh *shape, fs []fieldNode, tag int, pre string, nested bool, depth, embed int, sel string) {
 	if embed > sh.EmbedDepth {
 		sh.EmbedDepth = embed
 	}
@@ -207,7 +208,7 @@ func walkShape(sh *shape, fs []fieldNode, tag int, pre string, nested bool, dept
 				sh.HasPSM = true
 			}
 			if f.Anon {
-				walkShape(sh, sub, tag, pre, nested, depth, embed+1)
+				walkShape(sh, sub, tag, pre, nested, depth, embed+1, sel+"."+f.Name)
 				continue
 			}
 			p, _, ok := splitTag(f.Tags[tag], f.Name, tag == 2)
@@ -215,14 +216,14 @@ func walkShape(sh *shape, fs []fieldNode, tag int, pre string, nested bool, dept
 				continue
 			}
 			sh.Structs = append(sh.Structs, structKey{pre + p, depth + 1})
-			walkShape(sh, sub, tag, pre+p+".", true, depth+1, embed)
+			walkShape(sh, sub, tag, pre+p+".", true, depth+1, embed, sel+"."+f.Name)
 			continue
 		}
 		p, al, ok := splitTag(f.Tags[tag], f.Name, tag == 2)
 		if !ok {
 			continue
 		}
-		lf := leaf{Ty: f.Ty, Dflt: f.Dflt, Nested: nested, Depth: depth}
+		lf := leaf{Path: sel + "." + f.Name, Ty: f.Ty, Dflt: f.Dflt, Nested: nested, Depth: depth}
 		for _, k := range append([]string{p}, al...) {
 			lf.Keys = append(lf.Keys, pre+k)
 		}
@@ -290,7 +291,7 @@ func loadCorpus() {
 		ct := &corpusType{E: e, Node: node}
 		for tag := 0; tag < 5; tag++ {
 			sh := &shape{}
-			walkShape(sh, node.Fields, tag, "", false, 0, 0)
+			walkShape(sh, node.Fields, tag, "", false, 0, 0, "")
 			ct.Shapes[tag] = sh
 		}
 		collectDefaults(node, &ct.Dflts)
@@ -313,7 +314,14 @@ type caseT struct {
 	Opts    optsT
 	Prefill uint64      // 0 = zero destination; otherwise the seed of the pre-fill walk (entry T only)
 	Src     [][2]string // key/value pairs in insertion order (cookie: raw cookie value)
+	Srcs    []srcCase   // entry B: the sources of a Bind / BindTo call, in order
+	Gen     bool        // entry B: the generic Bind[T] instead of BindTo
 	NT      bool        // carries a boundary / out-of-range / malformed value (for the non-triviality rule)
+}
+
+type srcCase struct {
+	Tag int
+	KV  [][2]string
 }
 
 // ---------------------------------------------------------------- value generation
@@ -442,21 +450,52 @@ func genOpts(r *hx.Rand) optsT {
 func genCase(r *hx.Rand) caseT {
 	ct := hx.Pick(r, types)
 	c := caseT{T: ct.E.Name, Tag: r.Intn(5), Opts: genOpts(r)}
-	if r.Chance(11, 20) {
+	switch k := r.Intn(20); {
+	case k < 8:
 		c.Entry = "G"
-	} else {
+	case k < 15:
 		c.Entry = "T"
-		if r.Chance(7, 10) {
-			c.Prefill = r.U64() | 1
-		}
+	default:
+		c.Entry = "B"
 	}
-	sh := ct.Shapes[c.Tag]
-	multi := c.Tag != 1 // path parameters are single-valued
-	qf := c.Tag == 0 || c.Tag == 2
-	add := func(k, v string) { c.Src = append(c.Src, [2]string{k, v}) }
-	pPresent := r.Range(3, 9)
+	if c.Entry != "G" && r.Chance(7, 10) && (c.Entry == "T" || r.Chance(1, 2)) {
+		c.Prefill = r.U64() | 1
+	}
+	if c.Entry == "B" {
+		// Bind / BindTo: 1..4 sources in any order (a kind may repeat)
+		n := hx.Pick(r, []int{1, 2, 2, 2, 3, 3, 4})
+		perm := []int{0, 1, 2, 3, 4}
+		hx.Shuffle(r, perm)
+		for i := 0; i < n; i++ {
+			tag := perm[i%5]
+			if r.Chance(1, 12) {
+				tag = r.Intn(5)
+			}
+			c.Srcs = append(c.Srcs, srcCase{Tag: tag, KV: genSrc(r, ct.Shapes[tag], tag, c.Opts, &c.NT, r.Range(2, 7))})
+		}
+		if r.Chance(1, 60) {
+			c.Srcs = nil // ErrNoSourcesProvided
+		}
+		c.Gen = c.Prefill == 0 && r.Chance(1, 2)
+		return c
+	}
+	c.Src = genSrc(r, ct.Shapes[c.Tag], c.Tag, c.Opts, &c.NT, r.Range(3, 9))
+	return c
+}
+
+// genSrc builds the content of one source of kind tag, aimed at the leaves the type has under it.
+func genSrc(r *hx.Rand, sh *shape, tagKind int, opts optsT, ntFlag *bool, pPresent int) [][2]string {
+	var src [][2]string
+	multi := tagKind != 1 // path parameters are single-valued
+	qf := tagKind == 0 || tagKind == 2
+	add := func(k, v string) { src = append(src, [2]string{k, v}) }
 	pBad := hx.Pick(r, []int{0, 0, 0, 3, 3, 10, 10, 25, 50}) // per-leaf chance (percent) of an unrepresentable value
 	genValue := func(r *hx.Rand, prim string) (string, bool) { return genValue(r, prim, r.Chance(pBad, 100)) }
+	c := struct {
+		NT   bool
+		Opts optsT
+	}{Opts: opts}
+	defer func() { *ntFlag = *ntFlag || c.NT }()
 	for _, lf := range sh.Leaves {
 		if !r.Chance(pPresent, 10) {
 			continue
@@ -550,8 +589,8 @@ func genCase(r *hx.Rand) caseT {
 	for i := r.Intn(3); i > 0; i-- {
 		add(hx.Pick(r, []string{"zz", "unrelated", "Zk", "k0", "q.w", "x-other"}), hx.Pick(r, strPool))
 	}
-	hx.Shuffle(r, c.Src)
-	return c
+	hx.Shuffle(r, src)
+	return src
 }
 
 // ---------------------------------------------------------------- building the real inputs
@@ -572,7 +611,11 @@ type srcT struct {
 	kvs [][2]any
 }
 
-func buildSrc(c *caseT) *srcT {
+func buildSrc(tag int, kv [][2]string) *srcT {
+	c := struct {
+		Tag int
+		Src [][2]string
+	}{tag, kv}
 	s := &srcT{}
 	switch c.Tag {
 	case 0, 2:
@@ -904,6 +947,31 @@ func run(ct *corpusType, c *caseT, s *srcT, dest any) (res any, err error, panic
 		}
 	}()
 	o := c.Opts.options()
+	if c.Entry == "B" {
+		var from []binding.Option
+		for _, sc := range c.Srcs {
+			b := buildSrc(sc.Tag, sc.KV)
+			switch sc.Tag {
+			case 0:
+				from = append(from, binding.FromQuery(b.vals))
+			case 1:
+				from = append(from, binding.FromPath(b.path))
+			case 2:
+				from = append(from, binding.FromForm(b.vals))
+			case 3:
+				from = append(from, binding.FromHeader(b.hdr))
+			case 4:
+				from = append(from, binding.FromCookie(b.cookies))
+			}
+		}
+		from = append(from, o...)
+		if c.Gen {
+			res, err = ct.E.Bind(from...)
+			return
+		}
+		err = binding.BindTo(dest, from...)
+		return dest, err, false
+	}
 	if c.Entry == "G" {
 		switch c.Tag {
 		case 0:
@@ -939,17 +1007,30 @@ func emit(id string, c caseT, st *hx.Stats) string {
 	if ct == nil {
 		return "# unknown type " + c.T
 	}
-	s := buildSrc(&c)
+	var srcs []*srcT
+	if c.Entry == "B" {
+		for _, sc := range c.Srcs {
+			srcs = append(srcs, buildSrc(sc.Tag, sc.KV))
+		}
+	} else {
+		srcs = []*srcT{buildSrc(c.Tag, c.Src)}
+	}
+	s := &srcT{}
+	if len(srcs) > 0 {
+		s = srcs[0]
+	}
 	dest := ct.E.New()
-	if c.Entry == "T" && c.Prefill != 0 {
+	if c.Entry != "G" && c.Prefill != 0 {
 		prefill(hx.NewRand(c.Prefill), reflect.ValueOf(dest).Elem())
 	}
 	md, ms, mm := c.Opts.effective()
 	l := hx.NewLine(id).Tok(c.Entry).Nat(c.Tag).Nat(md).Nat(ms).Nat(mm).Bool(c.Opts.CSV).Bool(c.Opts.BaseAuto)
 	ct.Node.tokens(l)
 	render(reflect.ValueOf(dest).Elem(), l)
-	// source as the model sees it
-	l.Nat(len(s.kvs))
+	// source(s) as the model sees them
+	if c.Entry == "B" {
+		l.Nat(len(srcs))
+	}
 	seen := map[string]bool{}
 	var strs []string
 	note := func(x string) {
@@ -958,13 +1039,19 @@ func emit(id string, c caseT, st *hx.Stats) string {
 			strs = append(strs, x)
 		}
 	}
-	for _, kv := range s.kvs {
-		vs := kv[1].([]string)
-		l.Str(kv[0].(string)).Strs(vs)
-		for _, v := range vs {
-			note(v)
-			for _, p := range strings.Split(v, ",") { // the elements SliceCSV would convert
-				note(strings.TrimSpace(p))
+	for i, s := range srcs {
+		if c.Entry == "B" {
+			l.Nat(c.Srcs[i].Tag)
+		}
+		l.Nat(len(s.kvs))
+		for _, kv := range s.kvs {
+			vs := kv[1].([]string)
+			l.Str(kv[0].(string)).Strs(vs)
+			for _, v := range vs {
+				note(v)
+				for _, p := range strings.Split(v, ",") { // the elements SliceCSV would convert
+					note(strings.TrimSpace(p))
+				}
 			}
 		}
 	}
@@ -1014,6 +1101,9 @@ func emit(id string, c caseT, st *hx.Stats) string {
 		st.Count("outcome_" + outcome)
 		st.Count("tag_" + tagNames[c.Tag])
 		st.Count("entry_" + c.Entry)
+		if c.Entry == "B" {
+			st.Count(fmt.Sprintf("multi_sources_%d", len(c.Srcs)))
+		}
 		st.Count(fmt.Sprintf("embed_depth_%d", sh.EmbedDepth))
 		st.Count(fmt.Sprintf("nest_depth_%d", sh.NestDepth))
 		if c.Prefill != 0 {
@@ -1086,6 +1176,32 @@ func fixedCases() []caseT {
 		}
 		if lf := ct.Shapes[0].Leaves[0]; lf.Kind == "map" && lf.Prim[0] == 'i' {
 			out = append(out, caseT{T: ct.E.Name, Tag: 0, Entry: "G", Opts: optsT{-1, -1, 1, false, false}, Src: [][2]string{{lf.Keys[0], `{"a":1,"b":2}`}}, NT: true})
+			break
+		}
+	}
+	// K04i: a defaulted int field bound from the query, then a header source that lacks the key
+	for _, ct := range types {
+		found := false
+		for _, q := range ct.Shapes[0].Leaves {
+			if q.Kind != "prim" || q.Prim != "i0" || q.Dflt == "" || q.Nested {
+				continue
+			}
+			if _, err := strconv.Atoi(q.Dflt); err != nil || q.Dflt == "7" {
+				continue
+			}
+			for _, h := range ct.Shapes[3].Leaves {
+				if h.Path == q.Path {
+					out = append(out, caseT{T: ct.E.Name, Entry: "B", Opts: optsT{-1, -1, -1, false, false}, NT: true,
+						Srcs: []srcCase{{Tag: 0, KV: [][2]string{{q.Keys[0], "7"}}}, {Tag: 3, KV: nil}}})
+					found = true
+					break
+				}
+			}
+			if found {
+				break
+			}
+		}
+		if found {
 			break
 		}
 	}
